@@ -278,7 +278,7 @@ class Check:
             err.stdout, err.stderr, err.returncode = p.stdout, p.stderr, p.returncode
             raise err
         out = []
-        for line in p.stdout.splitlines():
+        for line in p.stdout.split("\n"):
             line = line.strip()
             if not line:
                 continue
@@ -324,7 +324,7 @@ class Check:
         rounds = 0
         while True:
             done = {}
-            for line in died.stdout.splitlines():
+            for line in died.stdout.split("\n"):
                 try:
                     v = json.loads(line)
                     done[v["id"]] = v
@@ -362,7 +362,7 @@ class Check:
             p = subprocess.run([binp] + args, input=inp, capture_output=True, text=True, timeout=timeout, cwd=self.scratch,
                                preexec_fn=limit_memory)
             done = []
-            for line in p.stdout.splitlines():
+            for line in p.stdout.split("\n"):
                 try:
                     done.append(json.loads(line))
                 except Exception:
@@ -448,7 +448,7 @@ class Check:
             p = subprocess.run([binp, "replay", "-workers", "1"] + (args or []), input=inp, capture_output=True,
                                text=True, timeout=timeout, cwd=self.scratch)
             done = []
-            for line in p.stdout.splitlines():
+            for line in p.stdout.split("\n"):
                 try:
                     done.append(json.loads(line))
                 except Exception:
